@@ -23,7 +23,7 @@ from ..values import BOOL, INT, NONE, NORMAL, STR, U, Cls, DictObj, Exc, Fn, Lis
 NAME = "make_fn"
 REL = "jaxtyping/_decorator.py"
 SET = z3.ArraySort(STR, BOOL)
-str_int = z3.Function("py_str_int", INT, STR)
+from ..engine import str_int  # noqa: E402  (shared with the engine: literal integers fold to their decimal text)
 isident = z3.Function("py_str_isidentifier", STR, BOOL)
 
 
